@@ -525,6 +525,11 @@ var externalAlias = map[string]int{
 }
 
 // bytes.NewBuffer(b)/NewReader(b)/bstream.NewBStreamReader(b): the result keeps a reference to b.
+// externalShared: out-of-repo calls whose result is shared, recycled memory (never "fresh").
+var externalShared = map[string]bool{
+	"(*sync.Pool).Get": true,
+}
+
 var externalKeeps = map[string]int{
 	"bytes.NewBuffer": 0,
 	"bytes.NewReader": 0,
@@ -563,6 +568,11 @@ func (e *Effects) callResult(c *ssa.Call, idx int) RootSet {
 	}
 	if callee != nil {
 		name := callee.String()
+		if externalShared[name] {
+			// recycled objects: whatever comes out may still be referenced by whoever put it in
+			out.add(Root{Kind: rkUnknown})
+			return out
+		}
 		if ai, ok := externalAlias[name]; ok && ai < len(com.Args) {
 			out.addAll(e.Src(com.Args[ai]))
 			return out
